@@ -888,17 +888,17 @@ pub fn observe_enum(members: &[String]) -> String {
 }
 
 /// source text of a reference to an earlier enumerator, as a standalone expression of the same type and value
-/// (inside the braces an enumerator has the type of its initialiser)
+/// (inside the braces an enumerator has the type of its value: the type of its initialiser without modifiers, and the
+/// underlying type when the initialiser was enum-typed — enums.rs records the type of the evaluated constant)
 fn render_enumerator(k: &K) -> Option<String> {
     Some(match k {
+        K::Enum(_, inner) => return render_enumerator(inner),
         K::Bool(b) => b.to_string(),
         K::Lit(v) if *v == i128::MIN => return None,
         K::Lit(v) if *v < 0 => format!("(-{})", -*v),
         K::Lit(v) => format!("({})", v),
         K::I32(v) => format!("((int)({}))", v),
         K::U32(v) => format!("({}u)", v),
-        K::Enum(0, inner) => format!("((E0)({}))", as_integer(inner)?),
-        K::Enum(1, inner) => format!("((E1)({}u))", as_integer(inner)?),
         _ => return None,
     })
 }
